@@ -39,7 +39,7 @@ def handleDegen : P String := do
   | .ok s =>
     let absentName := 9
     let u := s.getAllNodeNames
-    let one := u ++ [absentName]
+    let one := (if u.length > 4 then u.take 2 ++ (match u.getLast? with | some x => [x] | none => []) else u) ++ [absentName]
     let pairs := one.flatMap fun x => one.map fun y => (x, y)
     let first := u.take 1
     let sets : List (List Nat) := [[], first, u, first ++ [absentName]]
